@@ -108,7 +108,8 @@ RULE = ("(a) direct calls of kvarn_utils::encode_quoted_str / quoted_str_split /
         "the start of the argument, and requests that end at L or in the middle of that character, for L in {15..17, 31..33, 63..65, "
         "127..129, 255..257, 1023..1025, 2047..2049, 4095..4097, 8191..8193, 65535..65537} (the constants of the path: with_capacity(16), "
         "read_to_end's 32-byte probe, 4*1024, 2*1024), and invalid UTF-8 (truncated 2/3/4-byte sequences, lone continuation, 0xFF, overlong, "
-        "surrogate, > U+10FFFF) at those offsets; PENDING requests -- 1..6 (one script each with 40 and 150) connections that are connected "
+        "surrogate, > U+10FFFF) at those offsets; a sweep with 2-, 3- and 4-byte characters at EVERY byte offset below 300 (thorough: 1200) "
+        "of an unknown command and of a ping argument; PENDING requests -- 1..6 (one script each with 40 and 150) connections that are connected "
         "and silent / have sent a part of their request (cut anywhere, also inside a character) / wait in `wait` for the shutdown / sit in "
         "the slow plugin / have a reply they do not read / vanish in the middle of the request, while other connections make whole "
         "exchanges (ping with unique tokens, unknown commands, invalid UTF-8, clear, plugin errors, the counter plugin, a closing command); "
@@ -419,6 +420,17 @@ def long_sessions(rng, quick):
     out = []
     small = [r for r in reqs if len(r[1]) <= 5000]
     big = [r for r in reqs if len(r[1]) > 5000]
+    # sweep: multi-byte characters at every byte offset of the first 300 (thorough: 1200) bytes of an unknown command and of an argument
+    sweep = [("sweep", ("cleer file exempel.se /blogg/%s.html" % ("räksmörgås-" * 6)).encode())]
+    for pad in range(0, 300 if quick else 1200):
+        for n, tail in enumerate(("é", "åäö", "日本語", "🦀🦀")):
+            sweep.append(("sweep", b"y" * pad + tail.encode() + b" arg"))
+            if (pad + n) % 2 == 0:
+                sweep.append(("sweep", b"ping " + b"y" * pad + tail.encode()))
+    for i in range(0, len(sweep), 100):
+        steps = [st(OP_REQ, k + 1, r) for k, (_, r) in enumerate(sweep[i:i + 100])]
+        steps.append(st(OP_REQ, 9000, b"ping still there"))
+        out.append(conc(steps, "session-sweep"))
     for group, size in ((small, 40), (big, 6)):
         for i in range(0, len(group), size):
             steps = [st(OP_REQ, k + 1, r) for k, (_, r) in enumerate(group[i:i + size])]
